@@ -67,6 +67,8 @@ func verifRender(b *bytes.Buffer, n node) {
 			if x.LocalName != "" {
 				b.WriteString("[" + x.LocalName + "]")
 			}
+		case x.LocalName == "" && x.Prefix == "" && x.typeTest == allNode:
+			b.WriteString("node()") // the step '//' abbreviates
 		case x.LocalName == "" && x.Prefix == "":
 			b.WriteString("*")
 		default:
